@@ -1,6 +1,10 @@
 """C15 — sampling and interpolation.
 
-Tie to /repo (correspondence, no translator):
+Tie to /repo:
+  (T) tools/extract/interp.py regenerates Gen/InterpEdges.lean (the masked-assignment programs of
+      _compute_linear/nearest_weights_edge, the nearest index rule, the node search constants)
+      from the live source; Props/C15.lean proves they compute the model functions.
+  (C) correspondence:
   the real `nearest_interpolator`, `linear_interpolator`, `per_axis_interpolator`,
   `Resampling` and `linear_deform` are run on generated grids / values / points in every
   calling convention and compared EXACTLY (dyadic inputs) or within the tolerance of
@@ -28,6 +32,7 @@ import numpy as np
 
 from vf import core
 from vf.core import fs
+from extract import interp as extract_interp
 
 RULE = ('interpolation: api(nearest/linear/per-axis) x dimension 1-3 x per-axis scheme tuple x '
         'per-axis coordinate kind (uniform / power-of-two non-uniform / dyadic non-uniform / '
@@ -36,7 +41,9 @@ RULE = ('interpolation: api(nearest/linear/per-axis) x dimension 1-3 x per-axis 
         '(low/high), far outside. sampling: callable kind x dimension x dtype x input '
         'convention. A case is non-trivial when the expected output is not constant; distinct = '
         'distinct such signatures together with the set of point categories hit.')
-TRUSTED = ['np.searchsorted(side=left) on an ascending vector = number of nodes < p; NumPy '
+TRUSTED = ['translator tools/extract/interp.py (AST of the edge/weight helpers, nearest rule and '
+           '_find_indices -> Gen/InterpEdges.lean)',
+           'np.searchsorted(side=left) on an ascending vector = number of nodes < p; NumPy '
            'advanced indexing/broadcasting of the per-axis index arrays (modelled as position-wise '
            'resp. cartesian combination); Python index -1 = last node',
            'sampling: NumPy assignment/broadcast_to/equal-size reshape (the parameter `fit` of the '
@@ -1326,6 +1333,83 @@ def run_vector_valued(ctx):
                 ctx.violation(key + ' raised', '{}: {}'.format(type(e).__name__, str(e)[:200]), rc)
 
 
+def run_input_classes(ctx, with_model=True):
+    """Well-formed and malformed array-like inputs of every small shape: the real interpolators
+    accept (scalar / N results) or reject (ValueError) exactly as `classifyArrayInput` says.
+    ORACLE: accepted inputs give the node value at every point (all points sit on a node)."""
+    from odl.discr import discr_utils as du
+    lines, batch = [], []
+    for d in (1, 2, 3):
+        cv = [np.array([0.0, 1.0, 2.0]) + j for j in range(d)]
+        f = np.arange(3.0 ** d).reshape((3,) * d) + 1
+        node = tuple(1 + j for j in range(d))           # coordinates of node (1, .., 1)
+        expect = fs(float(f[(1,) * d]))
+        shapes = [(), (0,), (1,), (3,), (d,), (d, 0), (d, 1), (d, 4), (1, 4), (2, 4), (d + 1,),
+                  (d + 1, 2), (d, 2, 2), (1, 1, 3)]
+        for shape in sorted(set(shapes)):
+            for api in ('linear', 'nearest', 'peraxis'):
+                x = np.zeros(shape)
+                # put every point on the node (1,..,1) where the layout allows it
+                if len(shape) == 2 and shape[0] == d:
+                    x = x + np.array(node, dtype=float)[:, None]
+                elif shape == (d,) and d > 1:
+                    x = np.array(node, dtype=float)
+                else:
+                    x = x + float(node[0])
+                try:
+                    with warnings.catch_warnings():
+                        warnings.simplefilter('ignore')
+                        if api == 'linear':
+                            itp = du.linear_interpolator(f, cv)
+                        elif api == 'nearest':
+                            itp = du.nearest_interpolator(f, cv)
+                        else:
+                            itp = du.per_axis_interpolator(f, cv, ['nearest', 'linear', 'nearest'][:d])
+                        r = itp(x)
+                    if isinstance(r, np.ndarray):
+                        impl = 'ok scalar=0 n={}'.format(r.shape[0]) if r.ndim == 1 else \
+                            'ok shape={}'.format(r.shape)
+                        vals = [fs(v) for v in r.ravel().tolist()]
+                    else:
+                        impl, vals = 'ok scalar=1 n=1', [fs(r)]
+                except ValueError:
+                    impl, vals = 'err:value', None
+                except Exception as e:  # noqa
+                    impl, vals = 'err:{}:{}'.format(type(e).__name__, str(e)[:80]), None
+                case = dict(kind='inputclass', d=d, shape=list(shape), api=api)
+                ctx.case(('inputclass', d, shape, api), None)
+                ctx.hit('input/' + ('rejected' if impl == 'err:value' else 'accepted'))
+                on_node = (len(shape) == 2 and shape[0] == d) or (shape == (d,) and d > 1) or d == 1
+                if vals is not None and on_node and any(v != expect for v in vals):
+                    ctx.violation('interp input shape={} d={} api={} :: node value not reproduced'.format(
+                        shape, d, api), 'expected {} got {}'.format(expect, vals[:6]), case)
+                if impl.startswith('err:') and impl != 'err:value':
+                    ctx.violation('interp input shape={} d={} api={} :: raised'.format(shape, d, api),
+                                  impl, case)
+                # ORACLE: the documented input rules ("expected scalar, array-like of shape (1,),
+                # (n,) or (1, n)" in 1d, "({d},) or ({d}, n)" otherwise); a single point gives a
+                # scalar, N points give N results, anything else is rejected with ValueError
+                if d == 1:
+                    doc = 'ok scalar=1 n=1' if shape == () else \
+                        'ok scalar=0 n={}'.format(shape[-1]) if (len(shape) == 1 or (len(shape) == 2 and shape[0] == 1)) \
+                        else 'err:value'
+                else:
+                    doc = 'ok scalar=1 n=1' if shape == (d,) else \
+                        'ok scalar=0 n={}'.format(shape[1]) if (len(shape) == 2 and shape[0] == d) \
+                        else 'err:value'
+                if impl != doc:
+                    ctx.violation('interp input shape={} d={} api={} :: documented input rule'.format(
+                        shape, d, api), 'documented: {}; got {}'.format(doc, impl), case)
+                lines.append('classify d={} shape={}'.format(d, ','.join(str(n) for n in shape) or '-'))
+                batch.append((case, impl))
+    if not with_model:
+        return
+    outs = core.run_driver('C15', lines)
+    for (case, impl), ans in zip(batch, outs):
+        if ans != impl:
+            ctx.disagree(case, impl, ans)
+
+
 def run_dispatch(ctx, with_model=True):
     """Tie of the dispatch table: instrumented callables of every signature kind record
     whether the wrapper handed them an `out`; `_func_out_type` gives (has_out, out_optional).
@@ -1431,7 +1515,14 @@ MODEL_BRANCHES = ['axis/{}/{}'.format(s_, b) for s_ in 'ln' for b in ('lo', 'hi'
     ['conv/{}/{}'.format(a, c) for a in ('nearest', 'linear', 'peraxis') for c in ('point', 'array', 'mesh')] + \
     ['conv/resampling/mesh', 'conv/deform/array', 'mesh/one-point-first-axis'] + \
     ['dtype/' + vk for vk in sorted(set(v for _, v in VKINDS))] + \
-    ['dispatch/{}/{}'.format(k, o) for k in ('plain', 'optional', 'required') for o in ('out', 'noout')]
+    ['dispatch/{}/{}'.format(k, o) for k in ('plain', 'optional', 'required') for o in ('out', 'noout')] + \
+    ['input/accepted', 'input/rejected']
+
+
+def regenerate(ctx):
+    changed = extract_interp.regenerate()
+    return [('extract(discr_utils edge/weight helpers, nearest rule, _find_indices -> '
+             'Gen/InterpEdges.lean)', True, 'regenerated' if changed else 'unchanged')]
 
 
 def run(ctx):
@@ -1439,6 +1530,7 @@ def run(ctx):
     run_ops(ctx, op_configs(ctx))
     run_dtype_table(ctx)
     run_dispatch(ctx)
+    run_input_classes(ctx)
     run_sampling(ctx)
     unhit = [b for b in MODEL_BRANCHES if not ctx.branches.get(b)]
     ctx.extra['unhit_model_branches'] = unhit
@@ -1460,6 +1552,7 @@ def search(ctx, broken):
         run_ops(ctx, op_configs(ctx), with_model=False)
         run_dtype_table(ctx, with_model=False)
         run_dispatch(ctx, with_model=False)
+        run_input_classes(ctx, with_model=False)
         run_sampling(ctx)
     finally:
         ctx.tier = saved
@@ -1487,6 +1580,8 @@ def replay(ctx, case):
         run_vector_valued(ctx)
     elif kind == 'dispatch':
         run_dispatch(ctx, with_model=False)
+    elif kind == 'inputclass':
+        run_input_classes(ctx, with_model=False)
     if len(ctx.violations) > before:
         v = ctx.violations[before]
         return '{} :: {}'.format(v['key'], v['what'])
